@@ -13,6 +13,8 @@
     (a floating group of nodes leaves the solved matrix singular although `PortZ` is defined).
 -/
 import CC.Proofs.PortImpl
+import CC.Proofs.PortExists
+import CC.Properties.C03
 import CC.Model.Port
 import CC.Gen.PortImports
 import Mathlib.Algebra.Order.Field.Rat
@@ -315,18 +317,36 @@ theorem C06_impl_early_correct (solve : List (List K) → List K → Option (Lis
     obtain ⟨hxm, hab⟩ := List.mem_filter.mp hx
     exact C06_across_ideal_vs_zero N pid n1 n2 x hxm hvs (by simpa using hab) hex
 
+theorem zero_mem_probe (N : Net L K) (pid : String) (a b : L) (hz : N.zero ∈ N.nodeLabels)
+    (hne : N.branches ≠ []) : N.zero ∈ (probeNet N pid a b (1 : K)).nodeLabels := by
+  rw [mem_nodeLabels] at hz ⊢
+  rcases hz with ⟨h, _⟩ | ⟨x, hx, hxz⟩
+  · exact absurd h hne
+  · refine Or.inr ⟨{ x with e := x.e.zeroSources }, ?_, hxz⟩
+    exact List.mem_append_left _ (List.mem_map.mpr ⟨x, hx, rfl⟩)
+
+/-- **C06 (existence).**  A well-posed probe network of a valid network (distinct ids, no self-loop,
+reference node among the probe network's labels — `zero_mem_probe` — ) between two different nodes has a
+solution: `PortZ` is defined.
+(The MNA matrix of the probe network is square with trivial kernel — `C01_solvable`, `C01_square` —
+hence surjective; `C01_sound` turns the solution vector into a solution of the circuit equations.) -/
+theorem C06_exists (N : Net L K) (pid : String) (a b : L) (hp : pid ∉ N.ids) (hids : N.ids.Nodup)
+    (hsl : ∀ x ∈ N.branches, x.n1 ≠ x.n2) (hab : a ≠ b)
+    (hz : N.zero ∈ (probeNet N pid a b (1 : K)).nodeLabels)
+    (hw : WellPosed (probeNet N pid a b 1)) : ∃ R : Report L K, CircuitEqs (probeNet N pid a b 1) R :=
+  circuitEqs_exists_of_wellposed _ (probeNet_wf N pid a b hp hids hsl hab hz) hw
+
 /-- **C06 (code level): the repaired `open_circuit_impedance` computes the port impedance.**
 For every network (any labels, any field, ideal voltage sources and short circuits *anywhere*)
 with distinct ids and without self-loops, whose probe network is well-posed, and in which no
 unknown is pruned (`keep` all true): whatever the function returns — with any linear solver
-that returns solutions (`SolveOK`) — is `PortZ`.  (`hex` is used only when the function takes
-the early return for an ideal source directly across the port.) -/
+that returns solutions (`SolveOK`) — is `PortZ`.  (For the early return with an ideal source directly
+across the port, solvability of the probe network comes from `C06_exists`.) -/
 theorem C06_impl_eq_spec (N : Net L K) (solve : List (List K) → List K → Option (List K))
     (pid : String) (n1 n2 : L) (z : K) (hp : pid ∉ N.ids) (hsolve : SolveOK solve) (hids : N.ids.Nodup)
     (hsl : ∀ b ∈ N.branches, b.n1 ≠ b.n2)
     (hkeep : ∀ N' keep A e i1, N.portPre n1 n2 = .ok (.sys N' keep A e i1) → keep.all id = true)
-    (hw : WellPosed (probeNet N pid n1 n2 1))
-    (hex : N.portIsEarly n1 n2 = true → ∃ R : Report L K, CircuitEqs (probeNet N pid n1 n2 1) R)
+    (hw : WellPosed (probeNet N pid n1 n2 1)) (hz : N.zero ∈ N.nodeLabels)
     (h : N.openCircuitImpedance solve n1 n2 = .ok z) : PortZ N pid n1 n2 z := by
   unfold Net.openCircuitImpedance at h
   cases hpre : N.portPre n1 n2 with
@@ -338,7 +358,13 @@ theorem C06_impl_eq_spec (N : Net L K) (solve : List (List K) → List K → Opt
       simp only at h
       cases h
       have he := portPre_early hpre
-      exact (C06_impl_early_correct solve N pid hp n1 n2 he (hex he)).2
+      by_cases h12 : n1 = n2
+      · subst h12; exact C06_same_node_zero N pid hp n1
+      · have hne : N.branches ≠ [] := by
+          intro hnil
+          simp [Net.portIsEarly, Net.branchesBetween, hnil, h12] at he
+        exact (C06_impl_early_correct solve N pid hp n1 n2 he
+          (C06_exists N pid n1 n2 hp hids hsl h12 (zero_mem_probe N pid n1 n2 hz hne) hw)).2
     | sys N' keep A e i1 =>
       simp only at h
       obtain ⟨h12, hN', hcheck, hsys⟩ := portPre_sys hpre
@@ -398,12 +424,6 @@ theorem C06_impl_eq_spec (N : Net L K) (solve : List (List K) → List K → Opt
           rw [ea, eg] at hR2 hport2
           have := C06_unique N pid hp n1 n2 hw _ hR2
           rw [hport2] at this; exact this
-
-/-- solvability of a well-posed probe network (the existence half of `PortZ`); needs
-finite-dimensional rank–nullity for the spec's equations, not yet proved -/
-def C06_exists_statement : Prop :=
-  ∀ (N : Net Nat ℚ) (pid : String) (a b : Nat), pid ∉ N.ids → N.ids.Nodup →
-    WellPosed (probeNet N pid a b 1) → ∃ R : Report Nat ℚ, CircuitEqs (probeNet N pid a b 1) R
 
 /-- completeness at full strength: whenever the port impedance is defined the function returns
 it.  FALSE on the current code for floating groups of nodes (`C06_floating_island_counterexample`). -/
@@ -605,7 +625,7 @@ example : PortZ C06ex.exN "p" 2 0 5 :=
     (by intro b hb; simp only [C06ex.exN, List.mem_cons, List.mem_nil_iff, or_false] at hb
         rcases hb with rfl | rfl | rfl <;> decide)
     C06ex.exN_keep C06ex.exN_wellposed
-    (by intro h; simp [Net.portIsEarly, Net.branchesBetween, C06ex.exN, Elem.isIdealVS] at h)
+    (by rw [mem_nodeLabels]; exact Or.inr ⟨⟨1, 0, "Vs", "", .norton 0 10⟩, by simp [C06ex.exN], Or.inr rfl⟩)
     C06ex.exN_model_value
 
 /-- `PortZ` is inhabited on a network with an ideal source away from the port -/
@@ -729,4 +749,151 @@ theorem C06_floating_island_counterexample : ¬ C06_impl_complete_statement := b
       simp at e1
     exact dif_neg this
   simp [hnone] at hval
+section PortInvariance
+variable {L' : Type} [DecidableEq L']
+
+/-! ## C03 for ports: the port impedance does not depend on listing order, names, terminal
+order or reference node (corollaries of `C03_perm`, `C03_rename`, `C03_reverse`, `C06_ref_indep`
+applied to the probe network) -/
+
+/-- **C03/C06 (listing order).** -/
+theorem C06_port_invariant_perm (N N' : Net L K) (hz : N.zero = N'.zero)
+    (hp : N.branches.Perm N'.branches) (pid : String) (a b : L) (z : K) :
+    PortZ N pid a b z ↔ PortZ N' pid a b z := by
+  have hperm : (probeNet N pid a b (1 : K)).branches.Perm (probeNet N' pid a b (1 : K)).branches := by
+    show (N.zeroSources.branches ++ _).Perm (N'.zeroSources.branches ++ _)
+    exact List.Perm.append_right _ (hp.map _)
+  have hzero : (probeNet N pid a b (1 : K)).zero = (probeNet N' pid a b (1 : K)).zero := hz
+  have key := C03_perm (probeNet N pid a b (1 : K)) (probeNet N' pid a b 1) hzero hperm
+  unfold PortZ
+  constructor
+  · rintro ⟨⟨R, hR⟩, hall⟩
+    exact ⟨⟨R, (key R).mp hR⟩, fun S hS => hall S ((key S).mpr hS)⟩
+  · rintro ⟨⟨R, hR⟩, hall⟩
+    exact ⟨⟨R, (key R).mpr hR⟩, fun S hS => hall S ((key S).mp hS)⟩
+
+/-- **C03/C06 (reference node).** -/
+theorem C06_port_invariant_reref (N : Net L K) (g : L) (pid : String) (a b : L) (z : K) :
+    PortZ N pid a b z ↔ PortZ { N with zero := g } pid a b z := by
+  constructor
+  · exact C06_ref_indep N pid a b g z
+  · intro h
+    have := C06_ref_indep { N with zero := g } pid a b N.zero z h
+    have e : ({ ({ N with zero := g } : Net L K) with zero := N.zero } : Net L K) = N := by cases N; rfl
+    rw [e] at this; exact this
+
+theorem reversed_zeroSources (e : Elem K) : e.zeroSources.reversed = e.reversed.zeroSources := by
+  cases e <;> simp [Elem.reversed, Elem.zeroSources]
+
+theorem reversed_reversed (e : Elem K) : e.reversed.reversed = e := by
+  cases e <;> simp [Elem.reversed]
+
+theorem probeNet_flip (f : String → Bool) (N : Net L K) (pid : String) (hf : f pid = false) (a b : L) (J : K) :
+    (probeNet N pid a b J).flip f = probeNet (N.flip f) pid a b J := by
+  unfold probeNet Net.flip Net.zeroSources
+  simp only [List.map_append, List.map_map, List.map_cons, List.map_nil]
+  congr 2
+  · apply List.map_congr_left
+    intro x _
+    simp only [Function.comp_apply, Branch.flip]
+    by_cases h : f x.id = true
+    · simp [h, reversed_zeroSources]
+    · simp [h]
+  · simp [Branch.flip, probeBranch, hf]
+
+theorem flip_flip_net (f : String → Bool) (N : Net L K) : (N.flip f).flip f = N := by
+  cases N with
+  | mk bs z =>
+    unfold Net.flip
+    simp only [List.map_map]
+    congr 1
+    conv_rhs => rw [← List.map_id bs]
+    apply List.map_congr_left
+    intro x _
+    simp only [Function.comp_apply, Branch.flip, id]
+    by_cases h : f x.id = true
+    · simp [h, reversed_reversed]
+    · simp [h]
+
+/-- **C03/C06 (terminal order).**  Reversing the terminals of any subset of branches (source
+values negated) leaves the port impedance unchanged. -/
+theorem C06_port_invariant_reverse (f : String → Bool) (N : Net L K) (pid : String) (hf : f pid = false)
+    (a b : L) (z : K) : PortZ (N.flip f) pid a b z ↔ PortZ N pid a b z := by
+  have fwd : ∀ (M : Net L K) (R : Report L K), CircuitEqs (probeNet M pid a b 1) R →
+      CircuitEqs (probeNet (M.flip f) pid a b 1) (R.flip f) := by
+    intro M R hR
+    rw [← probeNet_flip f M pid hf]
+    exact C03_reverse f _ R hR
+  have back : ∀ (R : Report L K), CircuitEqs (probeNet (N.flip f) pid a b 1) R →
+      CircuitEqs (probeNet N pid a b 1) (R.flip f) := by
+    intro R hR
+    have := fwd (N.flip f) R hR
+    rw [flip_flip_net] at this; exact this
+  unfold PortZ
+  constructor
+  · rintro ⟨⟨R, hR⟩, hall⟩
+    exact ⟨⟨_, back R hR⟩, fun S hS => hall (S.flip f) (fwd N S hS)⟩
+  · rintro ⟨⟨R, hR⟩, hall⟩
+    exact ⟨⟨_, fwd N R hR⟩, fun S hS => hall (S.flip f) (back S hS)⟩
+
+theorem probeNet_rename (σ : L → L') (τ : String → String) (N : Net L K) (pid : String) (a b : L) (J : K) :
+    (probeNet N pid a b J).rename σ τ = probeNet (N.rename σ τ) (τ pid) (σ a) (σ b) J := by
+  unfold probeNet Net.rename Net.zeroSources
+  simp only [List.map_append, List.map_map, List.map_cons, List.map_nil]
+  rfl
+
+open Classical in
+/-- a report of the original network pushed forward along an injective renaming -/
+noncomputable def Report.push (σ : L → L') (τ : String → String) (R : Report L K) : Report L' K where
+  pot := fun l' => if h : ∃ l, σ l = l' then R.pot h.choose else 0
+  v := fun id' => if h : ∃ id, τ id = id' then R.v h.choose else 0
+  i := fun id' => if h : ∃ id, τ id = id' then R.i h.choose else 0
+
+theorem comap_push (σ : L → L') (hσ : Function.Injective σ) (τ : String → String)
+    (hτ : Function.Injective τ) (R : Report L K) : (R.push σ τ).comap σ τ = R := by
+  cases R with
+  | mk pot v i =>
+    unfold Report.push Report.comap
+    congr
+    · funext n
+      have h : ∃ l, σ l = σ n := ⟨n, rfl⟩
+      simp only [h, dif_pos]
+      rw [hσ h.choose_spec]
+    · funext id
+      have h : ∃ j, τ j = τ id := ⟨id, rfl⟩
+      simp only [h, dif_pos]
+      rw [hτ h.choose_spec]
+    · funext id
+      have h : ∃ j, τ j = τ id := ⟨id, rfl⟩
+      simp only [h, dif_pos]
+      rw [hτ h.choose_spec]
+
+/-- **C03/C06 (names).**  Renaming node labels (injectively) and identifiers (injectively)
+leaves the port impedance unchanged. -/
+theorem C06_port_invariant_rename (σ : L → L') (hσ : Function.Injective σ) (τ : String → String)
+    (hτ : Function.Injective τ) (N : Net L K) (pid : String) (a b : L) (z : K) :
+    PortZ (N.rename σ τ) (τ pid) (σ a) (σ b) z ↔ PortZ N pid a b z := by
+  have key : ∀ R' : Report L' K, CircuitEqs (probeNet (N.rename σ τ) (τ pid) (σ a) (σ b) 1) R' ↔
+      CircuitEqs (probeNet N pid a b 1) (R'.comap σ τ) := by
+    intro R'
+    rw [← probeNet_rename]
+    exact C03_rename σ hσ τ _ R'
+  unfold PortZ
+  constructor
+  · rintro ⟨⟨R', hR'⟩, hall⟩
+    refine ⟨⟨_, (key R').mp hR'⟩, fun S hS => ?_⟩
+    have hS' : CircuitEqs (probeNet (N.rename σ τ) (τ pid) (σ a) (σ b) 1) (S.push σ τ) := by
+      rw [key, comap_push σ hσ τ hτ]; exact hS
+    have := hall _ hS'
+    have e : ∀ n, (S.push σ τ).pot (σ n) = S.pot n := by
+      intro n
+      have := congrArg (fun R => R.pot n) (comap_push σ hσ τ hτ S)
+      exact this
+    rw [e a, e b] at this; exact this
+  · rintro ⟨⟨R, hR⟩, hall⟩
+    refine ⟨⟨R.push σ τ, by rw [key, comap_push σ hσ τ hτ]; exact hR⟩, fun S' hS' => ?_⟩
+    exact hall _ ((key S').mp hS')
+
+end PortInvariance
+
 end CC
